@@ -2,8 +2,10 @@
   Lemmas about BMV.Regex: the representative of a code point behaves like the code point under
   `deriv` (`class_rep`), a set of state pairs that passes `closedCheck` contains no pair with a
   common word (`closed_sound`), hence `verdict = .disjoint` is sound and `verdict = .overlap w`
-  carries a real common word.  Second part: the derivative matcher computes the usual denotational
-  language of the expression (`matchStr_iff_lang`).
+  carries a real common word; table forms (`allPairsDisjoint_sound`, `accepting_le_one`).
+  Not proved here: that `matchStr` (derivatives with smart constructors) computes the textbook
+  denotational language of the expression — `matchStr` is the model's definition of the language and
+  is tied to Go's regexp by the correspondence run.
 -/
 import BMV.Regex
 
